@@ -5,7 +5,7 @@
 //! `F <json>` for a case that does not conform, `DONE <cases> <failed>` at the end.
 use serde_json::Value;
 use std::io::{BufRead, Write};
-use tdverif::cells::{Elem, Tok, Zst, B3, K32};
+use tdverif::cells::{Elem, Tok, Zst, B1, B3, K32, W1K, W80};
 use tdverif::util::silence_panics;
 
 fn main() {
@@ -55,6 +55,7 @@ fn main() {
                     "b3" => tdverif::hist::run_case::<B3>(steps, cap, &mut events),
                     "zst" => tdverif::hist::run_case::<Zst>(steps, cap, &mut events),
                     "tok" => tdverif::hist::run_case::<Tok>(steps, cap, &mut events),
+                    "w1k" => tdverif::hist::run_case::<W1K>(steps, cap, &mut events),
                     e => panic!("unknown elem {e}"),
                 };
                 if let Some(lf) = logfile.as_mut() {
@@ -72,6 +73,9 @@ fn main() {
                     "elem" => tdverif::acc::run_case::<Elem>(&case, &mut events),
                     "u32" => tdverif::acc::run_case::<K32>(&case, &mut events),
                     "b3" => tdverif::acc::run_case::<B3>(&case, &mut events),
+                    "b1" => tdverif::acc::run_case::<B1>(&case, &mut events),
+                    "w80" => tdverif::acc::run_case::<W80>(&case, &mut events),
+                    "w1k" => tdverif::acc::run_case::<W1K>(&case, &mut events),
                     "zst" => tdverif::acc::run_case::<Zst>(&case, &mut events),
                     e => panic!("unknown elem {e}"),
                 };
